@@ -1,6 +1,6 @@
 /- Line-protocol driver for the C11 model: one JSON request per line in, one JSON answer per line out. -/
 import Lean.Data.Json
-import SqlglotModel.Model.Exec
+import SqlglotModel.Model.ExecPlan
 import SqlglotModel.Generated.C11
 
 open Lean (Json)
@@ -94,6 +94,74 @@ def jItems (j : Json) : Except String (List OrdItem) := do
     pure ⟨← (a[0]?.getD Json.null).getNat?, ← (a[1]?.getD Json.null).getBool?, ← (a[2]?.getD Json.null).getBool?⟩
 
 def evalErr : Json := Json.str "model-error"
+
+def jAggFn : String → Except String AggFn
+  | "SUM" => pure .sum | "COUNT" => pure .count | "MIN" => pure .min | "MAX" => pure .max
+  | _ => throw "aggfn"
+
+def aggFnStr : AggFn → String
+  | .sum => "SUM" | .count => "COUNT" | .min => "MIN" | .max => "MAX"
+
+def cmpStr : CmpOp → String
+  | .eq => "eq" | .ne => "ne" | .lt => "lt" | .le => "le" | .gt => "gt" | .ge => "ge"
+
+def jQuery (j : Json) : Except String Query := do
+  let cols ← (← (← field j "cols").getArr?).toList.mapM (·.getStr?)
+  let where_ ← optExpr j "where"
+  let group ← match j.getObjVal? "group" with
+    | .ok .null => pure none
+    | .ok v => do pure (some (← jNats v))
+    | .error _ => pure none
+  let outs ← (← (← field j "outs").getArr?).toList.mapM fun o => do
+    let a ← o.getArr?
+    let g (i : Nat) : Json := a[i]?.getD Json.null
+    match ← (g 0).getStr? with
+    | "col" => pure (Out.col (← (g 1).getNat?) (← (g 2).getStr?))
+    | "agg" => pure (Out.agg (← jAggFn (← (g 1).getStr?)) (← (g 2).getNat?) (← (g 3).getStr?))
+    | _ => throw "out"
+  let having ← match j.getObjVal? "having" with
+    | .ok .null => pure none
+    | .ok v => do
+      let a ← v.getArr?
+      let g (i : Nat) : Json := a[i]?.getD Json.null
+      pure (some ⟨← jAggFn (← (g 0).getStr?), ← (g 1).getNat?, ← cmpOfStr (← (g 2).getStr?), ← jVal (g 3)⟩)
+    | .error _ => pure none
+  let distinct ← (← field j "distinct").getBool?
+  let order ← (← (← field j "order").getArr?).toList.mapM fun it => do
+    let a ← it.getArr?
+    pure ((← (a[0]?.getD Json.null).getNat?), (← (a[1]?.getD Json.null).getBool?), (← (a[2]?.getD Json.null).getBool?))
+  pure ⟨cols, where_, group, outs, having, distinct, order, ← optNat j "limit", (← optNat j "offset").getD 0⟩
+
+def optNatJson : Option Nat → Json
+  | none => Json.null
+  | some n => Json.num (Lean.JsonNumber.fromNat n)
+
+def projsJson (ps : List NProj) : Json := Json.arr (ps.map fun p => Json.arr #[Json.str p.src, Json.str p.alias]).toArray
+
+def stepJson : Step → Json
+  | .scan => Json.mkObj [("kind", "Scan")]
+  | .join dep cond projs limit offset =>
+    Json.mkObj [("kind", "Join"), ("cond", Json.bool cond.isSome), ("projs", projsJson projs), ("limit", optNatJson limit),
+      ("offset", Json.num (Lean.JsonNumber.fromNat offset)), ("dep", stepJson dep)]
+  | .aggregate dep group aggs hav projs limit offset =>
+    Json.mkObj [("kind", "Aggregate"),
+      ("group", Json.arr (group.map fun g => Json.arr #[Json.str g.1, Json.str g.2]).toArray),
+      ("aggs", Json.arr (aggs.map fun a => Json.arr #[Json.str (aggFnStr a.fn), Json.str a.src, Json.str a.alias]).toArray),
+      ("hav", match hav with
+        | none => Json.null
+        | some h => Json.arr #[Json.str (aggFnStr h.fn), Json.str h.src, Json.str (cmpStr h.op), vJson h.lit]),
+      ("projs", projsJson projs), ("limit", optNatJson limit), ("offset", Json.num (Lean.JsonNumber.fromNat offset)),
+      ("dep", stepJson dep)]
+  | .sort dep key projs limit offset =>
+    Json.mkObj [("kind", "Sort"),
+      ("key", Json.arr (key.map fun k => Json.arr #[Json.str k.1, Json.bool k.2.1, Json.bool k.2.2]).toArray),
+      ("projs", projsJson projs), ("limit", optNatJson limit), ("offset", Json.num (Lean.JsonNumber.fromNat offset)),
+      ("dep", stepJson dep)]
+
+def tblJson (t : Option Tbl) : Json :=
+  match t with
+  | none => Json.str "key-error"
+  | some t => Json.mkObj [("cols", Json.arr (t.cols.map Json.str).toArray), ("rows", rowsJson t.rows)]
 
 def handle (line : String) : Except String Json := do
   let j ← Json.parse line
@@ -192,7 +260,32 @@ def handle (line : String) : Except String Json := do
     let rows ← jRows (← field j "rows")
     let ks := items.map fun it => ((fun r : Row => SqlglotModel.Sem.getCol r it.col), it.desc, it.nullsFirst)
     pure (rowsJson (limitOffset (← optNat j "limit") ((← optNat j "offset").getD 0)
-      (rows.mergeSort fun a b => cmpRows ks a b != .gt)))
+      (stableSort (fun a b => cmpRows ks a b != .gt) rows)))
+  | "plan" => pure (stepJson (plan (← jQuery (← field j "q"))))
+  | "exec_plan" =>
+    let q ← jQuery (← field j "q")
+    pure (tblJson (exec cfg ⟨q.cols, ← jRows (← field j "rows")⟩ (plan q)))
+  | "sem_query" =>
+    let q ← jQuery (← field j "q")
+    pure (rowsJson (q.eval (← jRows (← field j "rows"))))
+  | "scan" =>
+    let cond ← optExpr j "cond"
+    let projs ← match j.getObjVal? "projs" with
+      | .ok .null => pure none
+      | .ok v => do pure (some (← (← v.getArr?).toList.mapM jExpr))
+      | .error _ => pure none
+    let rows ← jRows (← field j "rows")
+    let src := if (← (← field j "static").getBool?) then ScanSource.static else ScanSource.table rows
+    let evalOk (e : Expr) := rows.all fun r => (SqlglotModel.Exec.eval cfg r e).isSome
+    if (match cond with | some e => !evalOk e | none => false) || (match projs with | some es => es.any (!evalOk ·) | none => false)
+    then pure evalErr else
+    pure (rowsJson (applyOffset ((← optNat j "offset").getD 0)
+      (scan src (cond.map (condFn cfg)) (projs.map fun es => fun r => es.map fun e => condFn cfg e r) (← optNat j "cap"))))
+  | "subq_cmp" =>
+    match subqueryComparison cfg (← (← field j "fn").getStr?) (← (← field j "quantifier").getStr?) (← jVal (← field j "v"))
+        (← jRow (← field j "xs")) with
+    | some v => pure (vJson v)
+    | none => pure evalErr
   | _ => throw "unknown op"
 
 partial def loop (h : IO.FS.Stream) : IO Unit := do
